@@ -122,6 +122,62 @@ func vCheckClosure(c *JApiCore) {
 		}
 		return nil
 	})
+	// every name in a schema's usedUserTypes / usedUserEnums is defined (the lists the JSON
+	// emitter writes, taken from the emitter's own structures), no name twice
+	used := func(where string, sc catalog.ExchangeSchema) {
+		types, enums, err := catalog.VUsedNames(sc)
+		vAssert(err == nil, "c05-schema-of-an-accepted-document-does-not-compile-in-the-emitter")
+		for i, n := range types {
+			_, ok := cat.UserTypes.Get(n)
+			vAssert(ok, "c05-used-user-type-not-defined")
+			for j := 0; j < i; j++ {
+				vAssert(types[j] != n, "c05-used-user-type-listed-twice")
+			}
+		}
+		for i, n := range enums {
+			_, ok := cat.UserEnums.Get(n)
+			vAssert(ok, "c05-used-user-enum-not-defined")
+			for j := 0; j < i; j++ {
+				vAssert(enums[j] != n, "c05-used-user-enum-listed-twice")
+			}
+		}
+	}
+	_ = cat.UserTypes.Each(func(k string, v *catalog.UserType) error { used("type "+k, v.Schema); return nil })
+	_ = cat.Interactions.Each(func(k catalog.InteractionID, v catalog.Interaction) error {
+		switch in := v.(type) {
+		case *catalog.HTTPInteraction:
+			if in.PathVariables != nil {
+				used("pathvars", in.PathVariables.Schema)
+			}
+			if in.Query != nil {
+				used("query", in.Query.Schema)
+			}
+			if in.Request != nil {
+				if in.Request.HTTPRequestHeaders != nil {
+					used("request-headers", in.Request.HTTPRequestHeaders.Schema)
+				}
+				if in.Request.HTTPRequestBody != nil {
+					used("request-body", in.Request.HTTPRequestBody.Schema)
+				}
+			}
+			for _, r := range in.Responses {
+				if r.Headers != nil {
+					used("response-headers", r.Headers.Schema)
+				}
+				if r.Body != nil {
+					used("response-body", r.Body.Schema)
+				}
+			}
+		case *catalog.JsonRpcInteraction:
+			if in.Params != nil {
+				used("params", in.Params.Schema)
+			}
+			if in.Result != nil {
+				used("result", in.Result.Schema)
+			}
+		}
+		return nil
+	})
 	// user types / enums / servers: keys unique by construction of the ordered maps; order list and data agree
 	n := 0
 	_ = cat.UserTypes.Each(func(k string, v *catalog.UserType) error { n++; return nil })
